@@ -13,6 +13,7 @@ use crate::data::position;
 use crate::handles::*;
 use crate::variant::*;
 
+#[cfg_attr(feature = "hsivonen_encoding_rs_verif", derive(Debug, Clone, PartialEq, Eq, Hash))]
 pub struct SingleByteDecoder {
     table: &'static [u16; 128],
 }
@@ -269,6 +270,7 @@ impl SingleByteDecoder {
     }
 }
 
+#[cfg_attr(feature = "hsivonen_encoding_rs_verif", derive(Debug, Clone, PartialEq, Eq, Hash))]
 pub struct SingleByteEncoder {
     table: &'static [u16; 128],
     run_bmp_offset: usize,
